@@ -65,16 +65,22 @@ def run_strace(repo, test_file, run, pkg='.', timeout=120):
 
 
 def try_replay(pid, obligation, rep, repo):
+    """run the drivers registered for this obligation (at most three) until one reproduces the failure on the real code"""
     if not DRIVERS: register()
+    last = None; tried = 0
     for prop, rx, tf, run, pkg in DRIVERS:
         if prop == pid and rx.search(obligation):
+            if tried >= 3: break
+            tried += 1
             if tf.startswith('strace:'):
                 rc, out = run_strace(repo, tf[7:], run, pkg)
-                return {'driver': tf, 'run': run, 'reproduced': rc == 1, 'exit': rc, 'output': out}
-            rc, out = run_overlay(repo, tf, run, pkg)
-            # drivers are written so that the test FAILS exactly when the real code misbehaves
-            return {'driver': tf, 'run': run, 'reproduced': rc not in (0, 124) and 'FAIL' in out, 'exit': rc, 'output': out}
-    return None
+                last = {'driver': tf, 'run': run, 'reproduced': rc == 1, 'exit': rc, 'output': out}
+            else:
+                rc, out = run_overlay(repo, tf, run, pkg)
+                # drivers are written so that the test FAILS exactly when the real code misbehaves
+                last = {'driver': tf, 'run': run, 'reproduced': rc not in (0, 124) and 'FAIL' in out, 'exit': rc, 'output': out}
+            if last['reproduced']: return last
+    return last
 
 
 if __name__ == '__main__':
